@@ -469,15 +469,18 @@ class ODE:
         tuple[atoms.Assignment, ...]
             The sorted assignments
         """
-        intermediates = self.intermediates
-        if remove_unused:
-            deps = self.dependents()
-            intermediates = tuple([a for a in intermediates if a.name in deps])
-
         names = sort_assignments(
-            assignments=intermediates + self.state_derivatives,
+            assignments=self.intermediates + self.state_derivatives,
             assignments_only=assignments_only,
         )
+        if remove_unused:
+            # Filter after sorting so that the relative order of the
+            # remaining assignments (and hence the state slots) is the
+            # same with and without unused variables
+            deps = self.dependents()
+            unused = {a.name for a in self.intermediates if a.name not in deps}
+            names = tuple([name for name in names if name not in unused])
+
         return tuple([cast(atoms.Assignment, self[name]) for name in names])
 
     def sorted_state_derivatives(self) -> tuple[atoms.StateDerivative, ...]:
